@@ -272,3 +272,36 @@ def iterates_vector(loop, vector_texts: set) -> bool:
     while isinstance(it, ast.Call) and isinstance(it.func, ast.Name) and it.func.id in ("map", "enumerate", "list", "tuple", "iter") and it.args:
         it = it.args[1] if it.func.id == "map" and len(it.args) >= 2 else it.args[0]
     return it is not None and unparse(it) in vector_texts
+
+
+def path_conditions(parents: dict, node: ast.AST) -> list:
+    """[(test expression, truth value)] known to hold whenever `node` executes, from the structure around it: enclosing `if`
+    arms (test true in the body, false in the else arm; `not x` is unwrapped) and earlier `if T: ...; return/continue/break/
+    raise` statements of the enclosing blocks (T false afterwards).  Loops are crossed only for `continue`-style guards of
+    the same iteration; the function boundary stops the walk."""
+    out = []
+
+    def add(t, truth):
+        while isinstance(t, ast.UnaryOp) and isinstance(t.op, ast.Not):
+            t, truth = t.operand, not truth
+        out.append((t, truth))
+
+    def terminates(block) -> bool:
+        return bool(block) and isinstance(block[-1], (ast.Return, ast.Raise, ast.Continue, ast.Break))
+
+    n = node
+    while n in parents:
+        par = parents[n]
+        for fld in ("body", "orelse", "finalbody"):
+            blk = getattr(par, fld, None)
+            if isinstance(blk, list) and any(x is n for x in blk):
+                idx = [i for i, x in enumerate(blk) if x is n][0]
+                for st in blk[:idx]:
+                    if isinstance(st, ast.If) and not st.orelse and terminates(st.body):
+                        add(st.test, False)
+                if isinstance(par, ast.If):
+                    add(par.test, fld == "body")
+        if isinstance(par, (ast.FunctionDef, ast.AsyncFunctionDef)):
+            break
+        n = par
+    return out
